@@ -62,6 +62,7 @@ func optQuote(t *rapid.T, s string) string {
 }
 
 var rePatterns = []struct{ pat, hit, miss string }{
+	{`a{3}`, "xaaay", "a{3}"}, {`ab{1,2}c`, "abbc", "ab{1,2}c"}, {`-{2,}`, "a--b", "-{2,}"}, {`0{4}`, "10000", "0{4}"},
 	{`^a+$`, "aaa", "aab"}, {`^\d{3}$`, "123", "12a"}, {`^(ab|cd)$`, "cd", "abcd"}, {`^[a-c]+,[x-z]+$`, "ab,xy", "ab;xy"}, {`^x{1,2}$`, "xx", "xxx"},
 	{`^(foo|ba[rz]),\d+$`, "baz,42", "bat,42"}, {`^(cat|cow)$`, "cow", "dog"}, {`^(cat|dog)$`, "dog", "cow"}, {`^(cat|dog|cow)$`, "cow", "cot"}, {`测试+`, "a测试试", "测"}, {`^a\.b$`, "a.b", "axb"}, {`^[^,]+$`, "abc", "a,c"}, {`(?i)^ok$`, "OK", "okay"},
 }
